@@ -3,12 +3,15 @@ package c16
 import (
 	"bytes"
 	"context"
+	stdjson "encoding/json"
 	"fmt"
+	"io"
 	"math"
 	"math/big"
 	"os"
 	"regexp"
 	"sort"
+	"strconv"
 	"strings"
 
 	"github.com/wader/fq/internal/verif/core"
@@ -322,13 +325,58 @@ func (rn *runner) one(vc *valCase, idx int, e enc, only *Case) {
 	}
 }
 
+var trailingSeps = []string{"", " ", "\n"}
+var trailingTokens = []string{"]", "}", ",", ":", "\"", "[", "{", "x", "1", "null", "\\", "/", "]]", "}1"}
+
+// trailingTokenRef returns a whole-document validity reference for a text format
+// (independent of fq's decode loop), nil when there is none.
+func trailingTokenRef(f string) func(b []byte) bool {
+	switch f {
+	case "json":
+		return stdjson.Valid
+	case "jsonl":
+		// a sequence of whitespace separated JSON values
+		return func(b []byte) bool {
+			dec := stdjson.NewDecoder(bytes.NewReader(b))
+			for {
+				var v any
+				if err := dec.Decode(&v); err != nil {
+					return err == io.EOF
+				}
+			}
+		}
+	}
+	return nil
+}
+
 func (rn *runner) trailing(vc *valCase, idx int, e enc, only *Case) {
 	sp := rn.sp
 	base := Case{Format: sp.name, Value: vc.v, Full: vc.m.full, Sum: vc.m.sum, Canon: vc.m.canon, Enc: idx, Label: e.L}
 	key := sp.name + "|" + vc.v.String() + "|" + e.L
 	var intact *goTree
-	for _, tk := range []string{"trailing-00", "trailing-value"} {
+	kinds := []string{"trailing-00", "trailing-value"}
+	// text formats with a whole-document reference validator: every structural token of
+	// the syntax after every separator (a stray closer, comma, quote, ... is trailing data)
+	if trailingTokenRef(sp.fq) != nil && (idx == 0 || vc.v.Nodes() <= 2 || only != nil) {
+		for _, sep := range trailingSeps {
+			for _, tok := range trailingTokens {
+				kinds = append(kinds, "trailing-tok:"+strconv.Quote(sep+tok))
+			}
+		}
+	}
+	for _, tk := range kinds {
 		var in []byte
+		switch {
+		case strings.HasPrefix(tk, "trailing-tok:"):
+			tail, _ := strconv.Unquote(strings.TrimPrefix(tk, "trailing-tok:"))
+			in = concat(e.B, []byte(tail))
+			// only judged when the reference validator of the format rejects the whole text
+			// (e.g. "1" + "1" is the longer valid document "11")
+			if trailingTokenRef(sp.fq)(in) {
+				rn.r.Count("trailing_token_forms_a_valid_document", 1)
+				continue
+			}
+		}
 		switch tk {
 		case "trailing-00":
 			in = concat(e.B, []byte{0})
